@@ -194,6 +194,13 @@ def run(tier, seed):
                 trig_case(ctx, PL, drv, rng, name, cb, tier)
             for a in G.corner_args(name, cb):          # ends of the ranges, Bessel zeros
                 trig_case(ctx, PL, drv, rng, name, cb, tier, args=a)
+    # "all tau in (0, 200]": the small end too, log-uniformly (the truncation order is found by a root solver whose path
+    # depends on tau and epsilon in an irregular way), with loose and tight epsilon
+    for name in ("cosine", "sine"):
+        for _ in range(24 if q else 200):
+            a = {"tau": float(10 ** rng.uniform(-3, -0.3)), "epsilon": float(10 ** rng.uniform(-2.2, -0.31) if rng.random() < 0.7 else 10 ** rng.uniform(-10, -2))}
+            ctx.count("small-tau-sweep")
+            trig_case(ctx, PL, drv, rng, name, bool(rng.random() < 0.5), tier, args=a)
     # call histories: the same tau with a sequence of epsilons, cosine and sine alternating
     for tau in ((10.0, 3.5) if q else (10.0, 3.5, 25.0, 1.0)):
         for eps in (1e-2, 4e-7, 1e-10, 1e-9, 0.3):
